@@ -11,6 +11,7 @@ pub mod c02;
 pub mod c03;
 pub mod c04;
 pub mod c06;
+pub mod c06q;
 pub mod c07;
 pub mod c10;
 pub mod c13;
@@ -393,7 +394,29 @@ pub fn main() {
         }
         "C02" | "C16" => c02::run(&opts, &opts.property.clone()),
         "C04" => c04::run(&opts),
-        "C06" => c06::run(&opts),
+        "C06" => {
+            // full-stack attack histories + the agreement on the latest filter hashes alone
+            // (`Peers::get_latest_block_filter_hashes` against `Quorum.latestAgreed?` on random peer
+            // tables); a replay file goes to the run(s) whose case lines it contains
+            let text = opts
+                .replay
+                .as_ref()
+                .map(|p| std::fs::read_to_string(p).unwrap_or_default());
+            let has = |key: &str| {
+                text.as_ref()
+                    .map(|t| t.lines().any(|l| l.split_whitespace().next() == Some(key)))
+                    .unwrap_or(true)
+            };
+            // C06_PART=latestq | histories runs one part alone (development aid)
+            let part = std::env::var("C06_PART").unwrap_or_default();
+            let with_latest = has("latestq-seed") && part != "histories";
+            let with_histories = (has("history-seed") || !with_latest) && part != "latestq";
+            let mut r = if with_histories { c06::run(&opts) } else { c06q::run(&opts) };
+            if with_histories && with_latest {
+                r.merge(c06q::run(&opts));
+            }
+            r
+        }
         "C09" => sync::run(&opts, "C09"),
         "C08" => {
             // crash injection on set_scripts / filter / download histories and on the first start,
